@@ -21,8 +21,6 @@ import (
 var extFuncs = map[string]interface{}{
 	"strings.ReplaceAll":  strings.ReplaceAll,
 	"strings.Replace":     strings.Replace,
-	"strings.TrimSuffix":  strings.TrimSuffix,
-	"strings.TrimPrefix":  strings.TrimPrefix,
 	"strings.TrimSpace":   strings.TrimSpace,
 	"strings.Trim":        strings.Trim,
 	"strings.TrimLeft":    strings.TrimLeft,
